@@ -2269,6 +2269,8 @@ func runC14(c *lib.Ctx) {
 						limit = 100
 					case t.name == "uchar":
 						limit = 150
+					case len(use) == 2 && (f.fam == "search" || f.fam == "mismatch" || strings.Contains(f.name, "substitute")):
+						limit = 240 // the families with the most keyword pairs
 					}
 					en := &c14Enum{}
 					for n := 0; n < limit; n++ {
